@@ -551,11 +551,11 @@ theorem chain_write (c : Cfg) (hr : c.rotating = true) (hm : 0 < c.maxBytes) (hN
           have a3 : 2 ≤ (n : Int) + 1 ∧ (n : Int) + 1 ≤ c.backupCount := by omega
           have a4 : ¬ ((n : Int) = 0) := by omega
           have a5 : (n : Int) + 1 - 1 = n := by omega
-          simp [content, writeDir, hl, hl', g1, a1, a2, a3, a4, a5]
+          simp [content, writeDir, hl, hl', g1, a1, a2, a3, a4, a5, hn0]
       have hc0 : content (writeDir c s f b) 0 = [] := by simp [content, writeDir, hl, hl']
       rw [hs, hc0, List.append_nil]
-      have hk1 : ¬ (((k + 1 : Nat) : Int) = 0) := by omega
-      cases hp : s.dir.get ((k + 1 : Nat) : Int) with
+      have hk1 : ¬ ((k : Int) + 1 = 0) := by omega
+      cases hp : s.dir.get ((k : Int) + 1) with
       | none =>
         refine ⟨[], ?_, by simp⟩
         simp [chain, content, g1, hk1, hp]
@@ -566,6 +566,103 @@ theorem chain_write (c : Cfg) (hr : c.rotating = true) (hm : 0 < c.maxBytes) (hN
           simp only [List.mem_singleton] at hy
           subst hy
           exact I.full _ x (by omega) hp
+
+/-! ### writes in arbitrary (also externally disturbed) states -/
+
+theorem emit_attached_gen (c : Cfg) (hr : c.rotating = true) (hm : 0 < c.maxBytes)
+    (s : S) (h : s.err = none) (hs : s.stream = .attached 0) (f : File) (hf : s.dir.get 0 = some f) (b : Bytes) :
+    (emit c b s).err = none ∧ (emit c b s).stream = .attached 0 ∧ (emit c b s).hist = s.hist + b.length ∧
+    ∀ n, (emit c b s).dir.get n =
+      if ((f.data ++ b).length : Int) < c.maxBytes then
+        (if n = 0 then some ⟨f.start, f.data ++ b⟩ else s.dir.get n)
+      else rollSpec c.backupCount (s.hist + b.length)
+        (fun m => if m = 0 then some ⟨f.start, f.data ++ b⟩ else s.dir.get m) n := by
+  unfold emit
+  rw [okThen_ok _ _ h]
+  simp only [hr, if_true]
+  have hs1 : ({ streamWrite b s with hist := s.hist + b.length } : S) =
+      ⟨dirSet s.dir 0 ⟨f.start, f.data ++ b⟩, .attached 0, s.hist + b.length, none⟩ := by
+    simp [streamWrite, hs, hf, h]
+  rw [hs1]
+  rw [doRollover_attached c _ ⟨f.start, f.data ++ b⟩ 0 rfl rfl (by simp) hm]
+  by_cases hl : ((f.data ++ b).length : Int) < c.maxBytes
+  · rw [if_pos hl]
+    refine ⟨rfl, rfl, rfl, ?_⟩
+    intro n
+    simp only [if_pos hl, get_dirSet]
+  · rw [if_neg hl]
+    obtain ⟨e, st, hi, g⟩ := rolloverBody_spec c
+      ⟨dirSet s.dir 0 ⟨f.start, f.data ++ b⟩, .attached 0, s.hist + b.length, none⟩ rfl
+    refine ⟨e, st, hi, ?_⟩
+    intro n
+    rw [g n]
+    simp only [if_neg hl]
+    rfl
+
+theorem emit_detached_gen (c : Cfg) (hr : c.rotating = true) (hm : 0 < c.maxBytes)
+    (s : S) (h : s.err = none) (f : File) (hs : s.stream = .detached f) (b : Bytes) :
+    (emit c b s).err = none ∧ (emit c b s).hist = s.hist + b.length ∧
+    (if ((f.data ++ b).length : Int) < c.maxBytes then
+        (emit c b s).stream = .detached ⟨f.start, f.data ++ b⟩ ∧ ∀ n, (emit c b s).dir.get n = s.dir.get n
+     else (emit c b s).stream = .attached 0 ∧
+        ∀ n, (emit c b s).dir.get n = rollSpec c.backupCount (s.hist + b.length) s.dir.get n) := by
+  unfold emit
+  rw [okThen_ok _ _ h]
+  simp only [hr, if_true]
+  have hs1 : ({ streamWrite b s with hist := s.hist + b.length } : S) =
+      ⟨s.dir, .detached ⟨f.start, f.data ++ b⟩, s.hist + b.length, none⟩ := by
+    simp [streamWrite, hs, h]
+  rw [hs1]
+  rw [doRollover_detached c _ ⟨f.start, f.data ++ b⟩ rfl rfl hm]
+  by_cases hl : ((f.data ++ b).length : Int) < c.maxBytes
+  · rw [if_pos hl, if_pos hl]
+    exact ⟨rfl, rfl, rfl, fun _ => rfl⟩
+  · rw [if_neg hl, if_neg hl]
+    obtain ⟨e, st, hi, g⟩ := rolloverBody_spec c
+      ⟨s.dir, .detached ⟨f.start, f.data ++ b⟩, s.hist + b.length, none⟩ rfl
+    exact ⟨e, hi, st, g⟩
+
+/-- the stream is open -/
+def WFstream (s : S) : Prop := s.stream = .attached 0 ∨ ∃ f, s.stream = .detached f
+
+/-- well-formed handler state: no escaped exception, the stream is open, and an attached stream
+    has its file -/
+structure WF (s : S) : Prop where
+  ok : s.err = none
+  open_ : (s.stream = .attached 0 ∧ (s.dir.get 0).isSome = true) ∨ ∃ f, s.stream = .detached f
+
+theorem rollSpec_bounded (N : Int) (hN : 0 ≤ N) (hist : Nat) (g : Int → Option File)
+    (hb : ∀ n, (g n).isSome = true → 0 ≤ n ∧ n ≤ N) (n : Int)
+    (h : (rollSpec N hist g n).isSome = true) : 0 ≤ n ∧ n ≤ N := by
+  have := hb n
+  unfold rollSpec at h
+  grind
+
+theorem ext_spec (n : Int) (s : S) (I : WF s) (upd : Dir → Dir)
+    (op : S → S) (hop : op = okThen fun s => okThen (fun s1 => { s1 with dir := upd s1.dir }) (detachAt n s)) :
+    WFstream (op s) ∧ (op s).err = none ∧ (op s).hist = s.hist ∧ (op s).dir = upd s.dir ∧
+    ((op s).stream = .attached 0 → s.stream = .attached 0 ∧ n ≠ 0) := by
+  subst hop
+  rw [okThen_ok _ _ I.ok]
+  rcases I.open_ with ⟨ha, hp⟩ | ⟨f, hd⟩
+  · by_cases hn : n = 0
+    · subst hn
+      cases h0 : s.dir.get 0 with
+      | none => rw [h0] at hp; simp at hp
+      | some f =>
+        have : detachAt 0 s = { s with stream := .detached f } := by simp [detachAt, ha, h0]
+        rw [this, okThen_ok _ _ (by exact I.ok)]
+        exact ⟨Or.inr ⟨f, rfl⟩, I.ok, rfl, rfl, by simp⟩
+    · have hn' : ¬ (0 : Int) = n := fun h => hn h.symm
+      have : detachAt n s = s := by simp [detachAt, ha, hn']
+      rw [this, okThen_ok _ _ I.ok]
+      exact ⟨Or.inl ha, I.ok, rfl, rfl, fun _ => ⟨ha, hn⟩⟩
+  · have : detachAt n s = s := by simp [detachAt, hd]
+    rw [this, okThen_ok _ _ I.ok]
+    refine ⟨Or.inr ⟨f, hd⟩, I.ok, rfl, rfl, ?_⟩
+    intro h
+    rw [hd] at h
+    simp at h
 
 theorem chain_congr (g g' : Int → Option File) (h : ∀ n, g' n = g n) (k : Nat) : chain g' k = chain g k := by
   have : g' = g := funext h
